@@ -57,6 +57,22 @@ int main() {
         o1 = capture([] { masa_display_array(); }); o2 = capture([] { masa_display_vec<double>(); }); n++; if (o1 != o2) printf("BAD masa_display_array on %s differs from masa_display_vec<double>\n", sol.c_str());
         { std::istringstream vs(o2); std::string line; while (std::getline(vs, line)) { size_t p = line.find(" is size: "); if (p == std::string::npos) continue; std::string vn = line.substr(0, p); std::vector<double> v; int st = masa_get_vec<double>(vn, v); double arr[512]; for (double& x : arr) x = -777; int m = -3; int sa = masa_get_array(vn.c_str(), &m, arr); n++;
             bool ok = sa == st && m == (int)v.size(); for (int i = 0; ok && i < m; i++) ok = memcmp(&arr[i], &v[i], 8) == 0; if (ok && arr[m] != -777) ok = false; if (!ok) printf("BAD masa_get_array(%s) on %s differs from masa_get_vec<double>\n", vn.c_str(), sol.c_str()); } }
+        // array lengths through C: every vector set with masa_set_array at lengths around the powers of two up to 2^17 (+ 10^6) must read back,
+        // through masa_get_vec<double>, exactly what masa_set_vec<double> would have stored; evaluators provided by the solution agree afterwards
+        { std::vector<std::string> vns; { std::istringstream vs(o2); std::string line; while (std::getline(vs, line)) { size_t p = line.find(" is size: "); if (p != std::string::npos) vns.push_back(line.substr(0, p)); } }
+          if (!vns.empty()) {
+            std::vector<int> lens; for (int e = 1; e <= 17; e++) for (int dlt = -1; dlt <= 1; dlt++) lens.push_back((1 << e) + dlt); lens.push_back(1000000);
+            const std::string& vn = vns[0];
+            for (int len : lens) {
+              std::vector<double> t(len); for (int i = 0; i < len; i++) t[i] = 0.5 + 0.25 * ((i * 7 + len) % 11);
+              int nn = len; capture([&] { masa_set_array(vn.c_str(), &nn, t.data()); }); std::vector<double> back; capture([&] { masa_get_vec<double>(vn, back); }); n++;
+              bool ok = back.size() == t.size() && (len == 0 || memcmp(back.data(), t.data(), sizeof(double) * len) == 0);
+              if (!ok) { printf("BAD masa_set_array(%s, n=%d) on %s: masa_get_vec<double> then returns %zu entries%s\n", vn.c_str(), len, sol.c_str(), back.size(), back.size() == t.size() ? " with different contents" : ""); break; }
+              std::vector<double> viaC(len + 1, -777.0); int m = -1; capture([&] { masa_get_array(vn.c_str(), &m, viaC.data()); }); n++;
+              if (m != len || (len && memcmp(viaC.data(), t.data(), sizeof(double) * len)) || viaC[len] != -777.0) { printf("BAD masa_get_array(%s) on %s after setting %d entries: returns %d entries / different contents / writes beyond the end\n", vn.c_str(), sol.c_str(), len, m); break; }
+            }
+            capture([] { masa_init_param<double>(); });
+          } }
         int a1, a2; std::string q1 = capture([&] { a1 = masa_sanity_check(); }), q2 = capture([&] { a2 = masa_sanity_check<double>(); }); n++; if (a1 != a2 || q1 != q2) printf("BAD masa_sanity_check on %s: C %d C++ %d\n", sol.c_str(), a1, a2);
         a1 = masa_purge_default_param(); capture([&] { a2 = masa_sanity_check(); }); int a3; capture([&] { a3 = masa_sanity_check<double>(); }); n++; if (a2 != a3 || (a3 == 0 && !pn.empty())) printf("BAD purge/sanity through C on %s: C sanity %d, C++ sanity %d\n", sol.c_str(), a2, a3);
         a1 = masa_init_param(); capture([&] { a2 = masa_sanity_check<double>(); }); n++; if (a1 != 0 || a2 != 0) printf("BAD masa_init_param through C on %s: status %d, sanity afterwards %d\n", sol.c_str(), a1, a2);
